@@ -495,7 +495,7 @@ func (t *tr) binop(op token.Token, a, b Term, resT types.Type, pos token.Pos, co
 		r, arith = mul(a, b), true
 	case token.QUO:
 		if code {
-			t.assert(neq(b, intLit(0)), "safety/div", "", pos, "integer division by zero")
+			t.safety(neq(b, intLit(0)), "safety/div", pos, "integer division by zero")
 		}
 		r = app("godiv", SInt, a, b)
 		if bv, ok := constInt(b); ok && bv.Sign() > 0 && (resT != nil && isUnsigned(resT)) {
@@ -503,7 +503,7 @@ func (t *tr) binop(op token.Token, a, b Term, resT types.Type, pos token.Pos, co
 		}
 	case token.REM:
 		if code {
-			t.assert(neq(b, intLit(0)), "safety/div", "", pos, "integer modulo by zero")
+			t.safety(neq(b, intLit(0)), "safety/div", pos, "integer modulo by zero")
 		}
 		r = app("gomod", SInt, a, b)
 		if resT != nil && isUnsigned(resT) {
